@@ -146,12 +146,14 @@ BUILTIN_EXC_PARENT = {
     "IntegrityError": "DatabaseError", "DatabaseError": "Error", "Error": "Exception",
     "ZeroDivisionError": "ArithmeticError", "ArithmeticError": "Exception",
     "OverflowError": "ArithmeticError",
+    "ProgrammingError": "DatabaseError", "OperationalError": "DatabaseError",
+    "UnboundLocalError": "NameError", "NameError": "Exception",
 }
 
 
 def bexc(name):
     mod = {"CancelledError": "asyncio", "IntegrityError": "sqlite3", "DatabaseError": "sqlite3",
-           "Error": "sqlite3"}.get(name, "builtins")
+           "Error": "sqlite3", "ProgrammingError": "sqlite3", "OperationalError": "sqlite3"}.get(name, "builtins")
     return Extern(f"{mod}.{name}")
 
 
@@ -586,6 +588,9 @@ class Interp:
         return None
 
     def dict_set(self, d: PyDict, key, value):
+        if hasattr(d, "entries"):  # recording accumulator of a per-row loop body (sqlmodel.RecDict)
+            d.entries.append((key, value))
+            return
         tok = self.key_token(key)
         if tok is None:
             raise Outside("store under symbolic dict key")
@@ -654,7 +659,7 @@ class Interp:
             return v
         if isinstance(v, SStr):
             if v.is_bytes:
-                raise Outside("str() of symbolic bytes")
+                return self.ctx.fresh_str("bytes_repr")  # "b'...'" text: only ever used in messages
             return v
         if isinstance(v, bool):
             return str(v)
@@ -794,6 +799,8 @@ class Interp:
             self.raise_("AttributeError", name)
         if isinstance(v, Opaque):
             return Opaque(v.name + "." + name)
+        if hasattr(v, "vget"):  # engine-side model objects (sqlite3 connection / cursor, ...)
+            return v.vget(self, name)
         from . import models
         r = models.value_method(self, v, name)
         if r is not None:
@@ -1140,6 +1147,8 @@ class Interp:
         it = self.eval(st.iter)
         if rule is not None:
             return rule.run_for(self, st, it)
+        if hasattr(it, "vfor"):
+            return it.vfor(self, st)
         if isinstance(it, SSeq):
             raise Outside("for over a symbolic sequence without a loop rule")
         for x in self.iterate(it):
